@@ -343,7 +343,8 @@ func genC18(c *Ctx) {
 	dirs := analysisDirs(c)
 	var comps []c18Comp
 	var sites []c18Site
-	nFuncs, nRanges := 0, 0
+	var recvWrites []c18Site
+	nFuncs, nRanges, nEntries := 0, 0, 0
 
 	// named map / slice types of package analysis are visible everywhere as analysis.X
 	global := &typeEnv{mapTypes: map[string]bool{}, sliceTypes: map[string]bool{}}
@@ -456,6 +457,13 @@ func genC18(c *Ctx) {
 				}
 			}
 		}
+
+		// statelessness: writes that reach the receiver of a Tokenize / Filter / Analyze method (c18state.go)
+		rw, ne := c18ReceiverWrites(cp, func(fd *ast.FuncDecl) bool {
+			return componentKind(fd, d == "analysis") != "" || (fd.Recv != nil && fd.Name.Name == "Analyze")
+		})
+		recvWrites = append(recvWrites, rw...)
+		nEntries += ne
 
 		keys := make([]string, 0, len(cp.funcs))
 		for k := range cp.funcs {
@@ -656,7 +664,19 @@ func genC18(c *Ctx) {
 		}
 		b.WriteString("\n")
 	}
-	b.WriteString("]\n\nend BlugeGen.C18\n")
+	b.WriteString("]\n\n")
+	b.WriteString("/-- (file, function, what): every write that can reach the receiver of a Tokenize / Filter / Analyze method,\ndirectly, through a local alias, or through a package function it is passed to (see go/extract/c18state.go) -/\n")
+	b.WriteString("def receiverWrites : List (String × String × String) := [\n")
+	for i, s := range recvWrites {
+		fmt.Fprintf(&b, "  (%s, %s, %s)", LeanStr(s.File), LeanStr(s.Func), LeanStr(s.What))
+		if i+1 < len(recvWrites) {
+			b.WriteString(",")
+		}
+		b.WriteString("\n")
+	}
+	b.WriteString("]\n\n")
+	fmt.Fprintf(&b, "/-- number of Tokenize / Filter / Analyze methods whose receiver was taken as shared state -/\ndef statefulEntryPoints : Nat := %d\n", nEntries)
+	b.WriteString("\nend BlugeGen.C18\n")
 	c.WriteLean("C18", b.String())
 	c.Summary["components"] = len(comps)
 	c.Summary["offset_writers"] = nWriters
@@ -664,4 +684,7 @@ func genC18(c *Ctx) {
 	c.Summary["range_statements"] = nRanges
 	c.Summary["nondeterminism_sites"] = len(sites)
 	c.Summary["analyze_call_sites"] = len(analyzeCalls)
+	c.Summary["receiver_writes"] = len(recvWrites)
+	genC18S(c) // second output file: the translated stemmers (c18s.go)
+	c.Summary["stateless_entry_points"] = nEntries
 }
